@@ -56,6 +56,7 @@ def required(tier):
         "with_nested_reference": 50,
         "with_repetition": 30,
         "with_explicit_empty": 30,
+        "with_subdirectories": 30,
     }
     for s in SHAPES:
         d["shape." + s] = 10
@@ -147,7 +148,13 @@ def gen_modular(rng):
                 alt.append(("n", t2, text, ""))
             override = (tgt, [alt, [("t", rng.choice(TERMS["root"])), ("t", rng.choice(TERMS["root"]))]])
             feats.add("override")
-    return {"shape": shape, "graph": graph, "files": files, "alias": alias, "locals": locals_, "rules": rules, "override": override, "fqn": fqn, "feats": feats}
+    dirs = {f: "" for f in files}
+    if rng.random() < 0.3:
+        for f in files:
+            if f != "root":
+                dirs[f] = rng.choice(["", "sub", "sub", "sub/deep", "other"])
+        feats.add("subdirs")
+    return {"shape": shape, "graph": graph, "files": files, "alias": alias, "locals": locals_, "rules": rules, "override": override, "fqn": fqn, "feats": feats, "dirs": dirs}
 
 
 def expected_fqns(graph, alias, locals_):
@@ -207,7 +214,9 @@ def file_texts(m):
         lines = []
         for t in m["graph"][f]:
             a = m["alias"][(f, t)]
-            lines.append("import '%s.pg'%s;" % (t, (" as " + a) if a != t else ""))
+            # import paths are relative to the importing file
+            rel = os.path.relpath(os.path.join("/x", m["dirs"][t], t + ".pg"), os.path.join("/x", m["dirs"][f]))
+            lines.append("import '%s'%s;" % (rel, (" as " + a) if a != t else ""))
         order = m["locals"][f]
         for l in order:
             lines.append("%s: %s;" % (l, " | ".join(alt_text(a) for a in m["rules"][(f, l)])))
@@ -263,20 +272,24 @@ def run(ctx):
         mon.uninstall()
 
 
-def load_modular(texts):
+def load_modular(texts, dirs=None):
     d = tempfile.mkdtemp(prefix="pgv-c20-")
+    dirs = dirs or {}
     try:
         for f, t in texts.items():
-            with open(os.path.join(d, f + ".pg"), "w") as fh:
+            sub = os.path.join(d, dirs.get(f, ""))
+            os.makedirs(sub, exist_ok=True)
+            with open(os.path.join(sub, f + ".pg"), "w") as fh:
                 fh.write(t)
         with pgx.quiet():
             pg = parglare.Grammar.from_file(os.path.join(d, "root.pg"))
             glr = parglare.GLRParser(pg)
             lr = None
             # the table cache ignores the parser kind (KF-C12-1, judged by C12): never let it interfere here
-            for fn in os.listdir(d):
-                if fn.endswith(".pgc"):
-                    os.remove(os.path.join(d, fn))
+            for dp, _, fns in os.walk(d):
+                for fn in fns:
+                    if fn.endswith(".pgc"):
+                        os.remove(os.path.join(dp, fn))
             try:
                 lr = parglare.Parser(parglare.Grammar.from_file(os.path.join(d, "root.pg")))
             except (parglare.exceptions.SRConflicts, parglare.exceptions.RRConflicts):
@@ -292,10 +305,10 @@ def one(ctx):
     kf = "KF-C20-1" if noncanonical_user(m) else None
     texts = file_texts(m)
     g, flat_text, reach, nprods = flatten(m)
-    case0 = {"files": texts, "flat": flat_text, "shape": m["shape"]}
+    case0 = {"files": texts, "flat": flat_text, "shape": m["shape"], "dirs": m["dirs"]}
     try:
         with pgx.watchdog(60):
-            pg, glr, lr = load_modular(texts)
+            pg, glr, lr = load_modular(texts, m["dirs"])
             fpg = pgx.grammar(flat_text)
             fglr = pgx.glr(fpg)
             flr = None
@@ -313,7 +326,7 @@ def one(ctx):
     ctx.count("grammars")
     ctx.count("shape." + m["shape"])
     for ft in m["feats"]:
-        ctx.count({"alias": "with_alias", "override": "with_override", "nested": "with_nested_reference", "rep": "with_repetition", "empty": "with_explicit_empty"}[ft])
+        ctx.count({"alias": "with_alias", "override": "with_override", "nested": "with_nested_reference", "rep": "with_repetition", "empty": "with_explicit_empty", "subdirs": "with_subdirectories"}[ft])
     if (lr is None) != (flr is None):
         ctx.case((str(texts), "lr-build"), True)
         ctx.violation("lr-construction-differs", case0, "Parser() on the modular grammar %s, on the flattened grammar %s" % ("constructs" if lr else "has conflicts", "constructs" if flr else "has conflicts"), known=kf)
@@ -378,7 +391,7 @@ def replay(case, ctx):
     mon = LRMonitor()
     mon.install()
     try:
-        pg, glr, lr = load_modular(case["files"])
+        pg, glr, lr = load_modular(case["files"], case.get("dirs"))
         fglr = pgx.glr(pgx.grammar(case["flat"]))
         if "input" in case:
             a = glrobs.parse_glr(glr, case["input"])
